@@ -134,6 +134,17 @@ def run_harness(sessions, threads=16, timeout=1200):
     return [json.loads(l) for l in lines]
 
 
+def run_harness_isolating(sessions, threads=16, timeout=1200):
+    """like run_harness, but when the process dies (stack overflow, abort) the sessions are re-run one per process so
+    that only the sessions that kill it are reported as {"crash": rc}"""
+    out = run_harness(sessions, threads=threads, timeout=timeout)
+    if not any("crash" in r for r in out):
+        return out
+    from concurrent.futures import ThreadPoolExecutor
+    with ThreadPoolExecutor(max_workers=threads) as ex:
+        return list(ex.map(lambda s: run_harness([s], threads=1, timeout=timeout)[0], sessions))
+
+
 def one_session(ops, **kw):
     r = run_harness([{"id": 0, "ops": [["set_rules_dir", RULES]] + ops}], threads=1, **kw)[0]
     if "res" in r and r["res"]:
